@@ -205,11 +205,11 @@ def in_language(tkey, word):
     return xsdspec.matches(xsdspec.MODELS[tkey], list(word))
 
 
-def histories(alphabet, k_add, with_rm=True, with_rep=True, dup_names=(), k_after=1):
+def histories(alphabet, k_add, with_rm=True, with_rep=True, dup_names=(), k_after=1, k_add_only=0):
     """history shapes: all add-sequences up to k_add; then optionally one removal / replacement at any position and up to
     k_after further adds; forward variants for names that occur in several leaves"""
     adds = [('add', a) for a in alphabet]
-    for k in range(0, k_add + 1):
+    for k in range(0, max(k_add, k_add_only) + 1):
         for seq in itertools.product(adds, repeat=k):
             yield tuple(seq)
     if with_rm:
